@@ -193,6 +193,99 @@ fn gen_case(r: &mut Rng, id: usize) -> Case {
             nkeys: keys.len(), desc, keypos: kp, limit: None, offset: None, wh: vec![], whpos: vec![],
         });
     }
+    // ---- joins / aggregation / window above the order analysis -------------------------------
+    // A third of the cases get a second table `u` (same definition, its own INSERTs: keys overlap
+    // with `t` but both sides have unmatched rows) and statements whose ORDER BY sits above a join
+    // of every type, a GROUP BY or a window: the planner may drop such a sort only if the operator
+    // below really delivers that order (analyze_order's arms).
+    let mut ops2 = vec![];
+    if ncols >= 2 && !nobg && r.chance(2, 5) {
+        let mut used2: Vec<String> = vec![];
+        for _ in 0..r.range(2, 3) {
+            let mut rows = vec![];
+            for _ in 0..r.range(2, 7) {
+                let mut row = vec![];
+                for (i, c) in cols.iter().enumerate() {
+                    let mut v = gen_val(r, c.ty, c.nullable);
+                    if Some(i) == pk && distinct_pk {
+                        let mut tries = 0;
+                        while used2.contains(&canon_value(&v)) && tries < 50 {
+                            v = gen_val(r, c.ty, false);
+                            tries += 1;
+                        }
+                        if used2.contains(&canon_value(&v)) {
+                            continue;
+                        }
+                        used2.push(canon_value(&v));
+                    }
+                    row.push(v);
+                }
+                if row.len() == ncols {
+                    rows.push(row);
+                }
+            }
+            if !rows.is_empty() {
+                ops2.push(Op::Ins(rows));
+            }
+        }
+    }
+    if !ops2.is_empty() {
+        let kc = pk.unwrap_or(0);
+        let other = (0..ncols).find(|c| *c != kc).unwrap();
+        let mut qid = queries.iter().map(|q: &Query| q.qid).max().unwrap_or(0) + 1;
+        let mut push = |queries: &mut Vec<Query>, qid: &mut usize, sel: Vec<String>, from: String, keys: Vec<(String, bool)>, tail: String, limit: Option<u64>| {
+            let ob = format!(" order by {}", keys.iter().map(|(k, d)| format!("{k}{}", if *d { " desc" } else { "" })).collect::<Vec<_>>().join(", "));
+            let desc: Vec<bool> = keys.iter().map(|k| k.1).collect();
+            let keypos: Vec<i64> = keys.iter().map(|k| sel.iter().position(|p| *p == k.0).map(|x| x as i64).unwrap_or(-1)).collect();
+            let lim = limit.map(|n| format!(" limit {n}")).unwrap_or_default();
+            queries.push(Query { qid: *qid, kind: "main", sql: format!("select {} from {}{}{}{}", sel.join(", "), from, tail, ob, lim),
+                nkeys: 0, desc: desc.clone(), keypos, limit, offset: None, wh: vec![], whpos: vec![] });
+            let mut sk = sel.clone();
+            sk.extend(keys.iter().map(|k| k.0.clone()));
+            let kp: Vec<i64> = (0..keys.len()).map(|i| (sel.len() + i) as i64).collect();
+            queries.push(Query { qid: *qid, kind: "A", sql: format!("select {} from {}{}{}", sk.join(", "), from, tail, ob),
+                nkeys: keys.len(), desc: desc.clone(), keypos: kp.clone(), limit: None, offset: None, wh: vec![], whpos: vec![] });
+            queries.push(Query { qid: *qid, kind: "U", sql: format!("select {} from {}{}", sk.join(", "), from, tail),
+                nkeys: keys.len(), desc, keypos: kp, limit: None, offset: None, wh: vec![], whpos: vec![] });
+            *qid += 1;
+        };
+        let tk = format!("t.{}", colname(kc));
+        let uk = format!("u.{}", colname(kc));
+        let to = format!("t.{}", colname(other));
+        let uo = format!("u.{}", colname(other));
+        // ORDER BY a key of either side above joins of every type, on the key (merge join) and on
+        // another column (hash join)
+        for jt in ["join", "left join", "right join", "full join"] {
+            if !r.chance(3, 4) {
+                continue;
+            }
+            let on_col = if r.chance(2, 3) { kc } else { other };
+            let from = format!("t {jt} u on t.{} = u.{}", colname(on_col), colname(on_col));
+            let keys = match r.below(6) {
+                0 => vec![(tk.clone(), false)],
+                1 | 2 => vec![(uk.clone(), false)],
+                3 => vec![(uk.clone(), true)],
+                4 => vec![(uk.clone(), false), (tk.clone(), false)],
+                _ => vec![(tk.clone(), false), (uo.clone(), r.chance(1, 2))],
+            };
+            let sel = match r.below(3) {
+                0 => vec![tk.clone(), uk.clone()],
+                1 => vec![to.clone(), uo.clone(), uk.clone()],
+                _ => vec![tk.clone(), uo.clone()],
+            };
+            let limit = if r.chance(1, 6) { Some(r.range(1, 4) as u64) } else { None };
+            push(&mut queries, &mut qid, sel, from, keys, String::new(), limit);
+        }
+        // ORDER BY under / above GROUP BY (sort aggregation when the group key is the scan's key)
+        let g = if r.chance(2, 3) { kc } else { other };
+        push(&mut queries, &mut qid, vec![colname(g), "count(*)".to_string()], "t".to_string(),
+            vec![(colname(g), r.chance(1, 4))], format!(" group by {}", colname(g)), None);
+        // the right input ordered by MORE than the join key (subquery ORDER BY k, o DESC)
+        if r.chance(1, 2) {
+            let from = format!("t join (select {}, {} from u order by {}, {} desc) u on t.{} = u.{}", colname(kc), colname(other), colname(kc), colname(other), colname(kc), colname(kc));
+            push(&mut queries, &mut qid, vec![tk.clone(), uo.clone()], from, vec![(uk.clone(), false), (uo.clone(), true)], String::new(), None);
+        }
+    }
     // storage level: sorted (merge) scan of all columns when there is a sort key
     let mut scans = vec![];
     if pkdecl == PkDecl::Col {
@@ -211,7 +304,7 @@ fn gen_case(r: &mut Rng, id: usize) -> Case {
         }
     }
     scans.push(ScanReq { cols: (0..ncols).collect(), range: None, sorted: false });
-    Case { id, nobg, block, cols, pk, pkdecl, ops, queries, scans }
+    Case { id, nobg, block, cols, pk, pkdecl, ops, ops2, queries, scans }
 }
 
 fn main() {
@@ -236,6 +329,20 @@ fn main() {
                 println!("OBS {obs}");
             }
         }
+        "sqlprobe" => {
+            // c12 sqlprobe <dbdir> <file with one statement per line>: results and optimized plans
+            let d = open_disk(&args[2], 64, 1);
+            for line in read_lines(&args[3]) {
+                let o = d.sql(&line);
+                if line.trim_start().to_lowercase().starts_with("select") {
+                    let p = d.plans(&line).map(|x| x.1).unwrap_or_else(|e| e);
+                    println!("{line}\n  plan {p}\n  => {}", o.render(false));
+                } else {
+                    println!("{line} => {}", o.class());
+                }
+            }
+            d.close();
+        }
         "sql" => {
             // prints the SQL script of the cases (for replays / humans)
             for line in read_lines(&args[2]) {
@@ -244,6 +351,12 @@ fn main() {
                 println!("{};", c.create_sql());
                 for op in &c.ops {
                     println!("{};", c.op_sql(op));
+                }
+                if !c.ops2.is_empty() {
+                    println!("{};", c.create_sql().replacen("create table t(", "create table u(", 1));
+                    for op in &c.ops2 {
+                        println!("{};", c.op_sql_on(op, "u"));
+                    }
                 }
                 for q in &c.queries {
                     println!("{}; -- q{} {}", q.sql, q.qid, q.kind);
